@@ -19,14 +19,9 @@ def run_one(prop, root, ov):
     repo = Repo(root, overrides=ov)
     r = Run(prop, 'quick', 0, repo)
     try:
-        from pmv import xlate as _x
-        from pmv.main import report_hazards, check_placeholders
-        _x.HAZARD_LOG[:] = []
-        _x.PLACEHOLDER_LOG[:] = []
+        from pmv.main import run_rules
         with contextlib.redirect_stdout(io.StringIO()):
-            mod.check(r, repo)
-        report_hazards(r, repo, _x.HAZARD_LOG)
-        check_placeholders(repo, _x.PLACEHOLDER_LOG)
+            run_rules(mod, r, repo)
     except (AnchorError, Unsupported, AnalysisError) as e:
         return None, '%s: %s' % (type(e).__name__, str(e)[:200])
     except Exception as e:                                  # internal error
